@@ -284,4 +284,45 @@ Proof.
   apply pow2_scale_format; [apply rnd_format | exact H].
 Qed.
 
+
+(* ---- the subtractive form loc - scale * g (gumbel.rs:100; Frechet and SkewNormal use the additive form) ---- *)
+Definition affine_sub_fl (loc scale g : float) : float :=
+  Bminus mode_NE loc (Bmult mode_NE scale g).
+
+Lemma rnd_opp (x : R) : rnd (- x) = - rnd x.
+Proof. unfold rnd. apply round_NE_opp. Qed.
+
+Theorem affine_sub_fl_value (loc scale g : float) :
+  is_finite loc = true -> is_finite scale = true -> is_finite g = true ->
+  Rabs (rnd (B2R scale * B2R g)) < bpow radix2 emax ->
+  Rabs (rnd (B2R loc - rnd (B2R scale * B2R g))) < bpow radix2 emax ->
+  B2R (affine_sub_fl loc scale g) = rnd (B2R loc - rnd (B2R scale * B2R g)) /\
+  is_finite (affine_sub_fl loc scale g) = true.
+Proof.
+  intros Fm Fs Fz O1 O2. unfold affine_sub_fl.
+  generalize (Bmult_correct prec emax Hp Hpe mode_NE scale g).
+  rewrite Rlt_bool_true by exact O1.
+  intros (E & F & _). rewrite Fs, Fz in F. simpl in F.
+  generalize (Bminus_correct prec emax Hp Hpe mode_NE loc (Bmult mode_NE scale g) Fm F).
+  rewrite E. rewrite Rlt_bool_true by exact O2.
+  intros (E2 & F2 & _). split; [exact E2 | exact F2].
+Qed.
+
+Theorem affine_sub_fl_error (loc scale g : float) :
+  is_finite loc = true -> is_finite scale = true -> is_finite g = true ->
+  Rabs (rnd (B2R scale * B2R g)) < bpow radix2 emax ->
+  Rabs (rnd (B2R loc - rnd (B2R scale * B2R g))) < bpow radix2 emax ->
+  Rabs (B2R (affine_sub_fl loc scale g) - (B2R loc - B2R scale * B2R g))
+    <= u * Rabs (B2R loc - B2R scale * B2R g) + u * (2 + u) * Rabs (B2R scale * B2R g) + (1 + u) * eta.
+Proof.
+  intros Fm Fs Fz O1 O2.
+  destruct (affine_sub_fl_value loc scale g Fm Fs Fz O1 O2) as (E & _). rewrite E.
+  pose proof (affine_rounding_exact (B2R loc) (B2R scale) (- B2R g) (generic_format_B2R prec emax loc)) as A.
+  replace (B2R scale * - B2R g) with (- (B2R scale * B2R g)) in A by ring.
+  rewrite rnd_opp, Rabs_Ropp in A.
+  replace (B2R loc + - rnd (B2R scale * B2R g)) with (B2R loc - rnd (B2R scale * B2R g)) in A by ring.
+  replace (B2R loc + - (B2R scale * B2R g)) with (B2R loc - B2R scale * B2R g) in A by ring.
+  exact A.
+Qed.
+
 End Fmt.
